@@ -90,7 +90,7 @@ func (fs *FileSet) File(idx Idx) *File {
 func (fs *FileSet) Position(idx Idx) *Position {
 	for _, file := range fs.files {
 		if idx <= Idx(file.base+len(file.src)) {
-			return file.Position(idx - Idx(file.base))
+			return file.Position(idx)
 		}
 	}
 
